@@ -251,6 +251,7 @@ func (p *clientStreamProcessorMPEGTS) initializeReader(ctx context.Context, firs
 
 			ntp := leadingTimeConvMPEGTS(p.client).getNTP(ctx, dts)
 
+			verifYield("client.processor.beforePush")
 			return trackProc.push(ctx, &procEntryMPEGTS{
 				pts:  pts,
 				dts:  dts,
